@@ -118,7 +118,8 @@ func c18client(intervalS int64, mode string, k int, delta time.Duration) func() 
 	return func() {
 		vrt.Quiet(true)
 		interval := secs(intervalS)
-		s := newSess(sessOpts{keepalive: intervalS})
+		// the server answers a stream close with its own and closes; everything else is driven by the harness
+		s := newSess(sessOpts{keepalive: intervalS, served: func(sc *srvConn, r *negRec) { sc.idleSession(r) }})
 		if s.cl == nil {
 			return
 		}
@@ -155,9 +156,62 @@ func c18client(intervalS int64, mode string, k int, delta time.Duration) func() 
 			end = vrt.VNow()
 			conn.close()
 		}
+		var t1 time.Duration
+		if mode == "disconnect-reconnect" || mode == "server-close-reconnect" {
+			// the session ends through the stream-close handshake, then the same client connects again
+			vrt.Sleep(time.Duration(k)*interval + delta)
+			if mode == "disconnect-reconnect" {
+				_ = s.cl.Disconnect()
+			} else {
+				conn.send("</stream:stream>")
+				vrt.WaitIdle()
+				conn.close()
+			}
+			vrt.WaitIdle()
+			end = vrt.VNow()
+			if err := s.cl.Connect(); err != nil {
+				vrt.Fail("C18|harness|reconnect", "%v", err)
+				return
+			}
+			vrt.WaitIdle()
+			t1 = vrt.VNow()
+		}
 		vrt.Sleep(time.Duration(k+4)*interval + 20*time.Second)
 		vrt.WaitIdle()
 		vrt.Quiet(true)
+		if t1 > 0 {
+			// keepalives of the second session: exactly one per interval, counted from its start
+			c1 := s.conn(1)
+			if c1 == nil {
+				vrt.Fail("C18|harness|no-second-connection", "")
+				return
+			}
+			var p2 []time.Duration
+			for _, rec := range *c1.raw.Peer().Log {
+				if rec.ToSrv && string(rec.Data) == "\n" && !rec.Failed {
+					p2 = append(p2, rec.At-t1)
+				}
+			}
+			cfg := fmt.Sprintf("interval=%s mode=%s k=%d delta=%s", interval, mode, k, delta)
+			mode := mode // local copy: the closure is run many times
+			if delta == 0 {
+				mode += "|end=on-tick"
+			} else {
+				mode += "|end=off-tick"
+			}
+			vrt.Log("second session pings %v", p2)
+			for i, p := range p2 {
+				if want := time.Duration(i+1) * interval; p != want {
+					vrt.Fail("C18|ping-off-schedule|second-session|"+mode, "%s: keepalive #%d of the second session written %s after its start, want %s (all %v): a keepalive loop of the ended session is still running", cfg, i+1, p, want, p2)
+					break
+				}
+			}
+			total := time.Duration(k+4)*interval + 20*time.Second
+			if want := int(total / interval); len(p2) != want {
+				vrt.Fail("C18|ping-count|second-session|"+mode, "%s: %d keepalives in %s on the second session, want %d", cfg, len(p2), total, want)
+			}
+			return
+		}
 		cfg := fmt.Sprintf("interval=%s mode=%s k=%d delta=%s", interval, mode, k, delta)
 		// pings seen by the server: whitespace-only writes
 		var pings []time.Duration
@@ -247,6 +301,10 @@ func TestVerifC18(t *testing.T) {
 			for _, d := range []time.Duration{-time.Millisecond, 0, time.Millisecond} {
 				scs = append(scs, hx.Scenario{Name: fmt.Sprintf("client/interval=%ds/drop=%d*i%+d", ivs, k, d), Opt: vrt.Options{Bound: 1, Horizon: 100000}, Body: c18client(ivs, "drop", k, d), Verdict: c18verdict})
 			}
+		}
+		for _, d := range []time.Duration{-time.Millisecond, 0, 300 * time.Millisecond} {
+			scs = append(scs, hx.Scenario{Name: fmt.Sprintf("client/interval=%ds/disconnect-reconnect%+d", ivs, d), Opt: vrt.Options{Bound: 1, Horizon: 100000}, Body: c18client(ivs, "disconnect-reconnect", 1, d), Verdict: c18verdict})
+			scs = append(scs, hx.Scenario{Name: fmt.Sprintf("client/interval=%ds/server-close-reconnect%+d", ivs, d), Opt: vrt.Options{Bound: 1, Horizon: 100000}, Body: c18client(ivs, "server-close-reconnect", 1, d), Verdict: c18verdict})
 		}
 		scs = append(scs, hx.Scenario{Name: fmt.Sprintf("client/interval=%ds/idle", ivs), Opt: vrt.Options{Bound: 1, Horizon: 100000}, Body: c18client(ivs, "idle", 2, 0), Verdict: c18verdict})
 	}
